@@ -66,3 +66,72 @@ func TVs() []TV {
 	}
 }
 
+
+// ---- extension (audit follow-up C01): type-level results as Go objects ----
+
+// Wrap is a wrapper error with an identity (errors.As finds it while it is part of a chain).
+type Wrap struct {
+	ID  uint64
+	Err error
+}
+
+func (w *Wrap) Error() string { return fmt.Sprintf("wrap %d: %v", w.ID, w.Err) }
+func (w *Wrap) Unwrap() error { return w.Err }
+
+// Mark is the identity of a fmt.Errorf("%w | %w", &Mark{ID}, inner) wrapper.
+type Mark struct{ ID uint64 }
+
+func (m *Mark) Error() string { return fmt.Sprintf("mark %d", m.ID) }
+
+// WrapErr wraps inner under the identity id: a struct wrapper for odd ids, fmt.Errorf with %w for even ones.
+func WrapErr(id uint64, inner error) error {
+	if id%2 == 0 {
+		return fmt.Errorf("%w | %w", &Mark{ID: id}, inner)
+	}
+	return &Wrap{ID: id, Err: inner}
+}
+
+// WrapperOf reports the wrapper identity still reachable from err.
+func WrapperOf(err error) (uint64, bool) {
+	var w *Wrap
+	if errors.As(err, &w) {
+		return w.ID, true
+	}
+	var m *Mark
+	if errors.As(err, &m) {
+		return m.ID, true
+	}
+	return 0, false
+}
+
+// ObserveX maps the outcome of one Verify call to the Coq [xobs] term.
+func ObserveX(err error, panicked bool) string {
+	if panicked {
+		return "XOPanic"
+	}
+	if err == nil {
+		return "XONil"
+	}
+	ve, isVE := err.(*header.VerifyError)
+	if !isVE {
+		// the statement: every rejection IS a *VerifyError (not merely wraps one)
+		return "XOOther"
+	}
+	if ve == nil {
+		return "XONilPtr"
+	}
+	for _, s := range sentinels {
+		if errors.Is(err, s.e) {
+			return fmt.Sprintf("(XOSent %s %s)", s.name, emit.B(ve.SoftFailure))
+		}
+	}
+	var te *vhdr.TypeErr
+	if errors.As(err, &te) {
+		via := "None"
+		if id, ok := WrapperOf(err); ok {
+			via = fmt.Sprintf("(Some %d)", id)
+		}
+		return fmt.Sprintf("(XOType %d %s %s)", te.ID, emit.B(ve.SoftFailure), via)
+	}
+	return "XOOther"
+}
